@@ -76,7 +76,7 @@ func renameNotation(a, b string) string {
 }
 
 // c15Step extends the history by one commit chosen from the menu enabled in the current tree.
-func c15Step(c *engine.C, idx int, exists map[string]bool, order []string, deep bool) hCommit {
+func c15Step(c *engine.C, idx int, exists map[string]bool, order []string, deep bool, braces bool) hCommit {
 	pfx := fmt.Sprintf("c%d-", idx)
 	cm := hCommit{Rev: fmt.Sprintf("%07x", 0xabc1000+idx), Date: fmt.Sprintf("2020-01-%02d", idx+1)}
 	cm.Author = c15Authors[c.Choose(len(c15Authors), pfx+"author")]
@@ -99,7 +99,8 @@ func c15Step(c *engine.C, idx int, exists map[string]bool, order []string, deep 
 	var menu []op
 	fresh := ""
 	paths := []string{"d/a.txt", "r.txt", "d/s/c.txt", "d/b.txt"}
-	if c.Bool(pfx + "first-file-below-a-directory-with-braces-in-its-name") {
+	if braces {
+		// the first file lies below a directory with braces in its name
 		paths[0] = "tpl/{name}/a.txt"
 	}
 	if deep {
@@ -198,12 +199,14 @@ func c15History(c *engine.C, maxDepth int) []hCommit {
 	if maxDepth > 1 {
 		n = 1 + c.Choose(maxDepth, "commits") // 1..maxDepth, default 1
 	}
-	deep := c.Bool("first-file-two-levels-down")
+	// where the first file lies: d/a.txt, two levels down (d/s/a.txt), or below a directory with braces in its name
+	first := c.Choose(3, "first-file-location")
+	deep, braces := first == 1, first == 2
 	exists := map[string]bool{}
 	var order []string
 	var h []hCommit
 	for i := 0; i < n; i++ {
-		cm := c15Step(c, i, exists, order, deep)
+		cm := c15Step(c, i, exists, order, deep, braces)
 		c15ApplyTree(exists, &order, cm)
 		h = append(h, cm)
 	}
